@@ -25,10 +25,11 @@ DataKinds == {"full", "subset"}
 \* clipped to the box), the generating value a few percent inside
 Starts == {"truth", "nearby", "on_lower", "on_upper"}
 Theories == {"mie", "mielens_fitted_angle"}
+Origins == {"at_zero", "offset"}     \* where the image's coordinate axes start (a region cut out of a larger image)
 Caches == {"hologram", "guess_hologram", "max_lnprob"}
 None == <<FALSE, {}>>
 
-Init == /\ cfg \in [strategy : Strategies, data : DataKinds, start : Starts, theory : Theories]
+Init == /\ cfg \in [strategy : Strategies, data : DataKinds, start : Starts, theory : Theories, origin : Origins]
         /\ nfits = 0 /\ scratch = "clean" /\ cached = {} /\ saved = None /\ loaded = None /\ steps = 0
 
 Fit == /\ steps < MaxSteps /\ nfits < 2
